@@ -58,7 +58,10 @@ def make_classes():
                 raise RuntimeError("constructor refuses")
             Exception.__init__(self, *args)
             self.kwargs = kwargs
-    return {"Decorated": Decorated, "Defined": Defined, "NoKwargs": NoKwargs, "OneArg": OneArg, "Exploding": Exploding}
+    @wamp.error("com.myapp.error.decorated.sub")
+    class DecoratedSub(Decorated):
+        pass
+    return {"DecoratedSub": DecoratedSub, "Decorated": Decorated, "Defined": Defined, "NoKwargs": NoKwargs, "OneArg": OneArg, "Exploding": Exploding}
 
 
 def strategy():
@@ -67,7 +70,7 @@ def strategy():
     vals = st.lists(W.values, max_size=3)
     kws = st.dictionaries(st.sampled_from(["a", "b", "reason", "código", "x_1"]), W.values, max_size=3)
     return st.fixed_dictionaries({
-        "kind": st.sampled_from(["app", "app", "decorated", "defined", "undefined", "undefined-builtin", "nokwargs", "onearg", "exploding"]),
+        "kind": st.sampled_from(["app", "app", "decorated", "defined", "undefined", "undefined-builtin", "nokwargs", "onearg", "exploding", "subclass-defined", "subclass-undefined", "decorated-subclass", "decorated-base"]),
         "uri": st.sampled_from(["com.myapp.error.custom", "wamp.error.not_authorized", "com.myapp.error.decorated", "a.b"]),
         "args": vals, "kwargs": kws, "tb": st.booleans(), "caller_knows": st.booleans(), "async_endpoint": st.booleans(),
         "ser": st.sampled_from(["json", "msgpack", "cbor", "ubjson"])})
@@ -124,6 +127,36 @@ def check_flow(c):
             else:
                 def make():
                     return cls(*args, **kwargs)
+        elif kind in ("decorated-subclass", "decorated-base"):
+            # a decorated class and a decorated subclass of it, both registered: each keeps its own URI, in both directions
+            dbase, dsub = classes["Decorated"], classes["DecoratedSub"]
+            cls = dsub if kind == "decorated-subclass" else dbase
+            expect_uri = "com.myapp.error.decorated.sub" if kind == "decorated-subclass" else "com.myapp.error.decorated"
+            for w_ in (callee, caller) if c["caller_knows"] else (callee,):
+                for k_ in ((dbase, dsub) if c["async_endpoint"] else (dsub, dbase)):
+                    w_.session.define(k_)
+
+            def make():
+                return cls(*args, **kwargs)
+        elif kind in ("subclass-defined", "subclass-undefined"):
+            # a registered base class and a subclass of it: the URI belongs to the *class raised* (exact class), an unregistered subclass is an unregistered class
+            base_cls = classes["Defined"]
+
+            class Sub(base_cls):
+                pass
+            callee.session.define(base_cls, "com.myapp.error.base")
+            if kind == "subclass-defined":
+                cls = Sub
+                callee.session.define(Sub, uri)
+                if c["caller_knows"]:
+                    caller.session.define(base_cls, "com.myapp.error.base")
+            else:
+                expect_uri = "wamp.error.runtime_error"
+                if c["caller_knows"]:
+                    caller.session.define(base_cls, "com.myapp.error.base")
+
+            def make():
+                return Sub(*args, **kwargs)
         elif kind == "undefined":
             class Undefined(Exception):
                 pass
@@ -138,7 +171,7 @@ def check_flow(c):
 
             def make():
                 return ValueError(*args)
-        if c["caller_knows"] and cls is not None:
+        if c["caller_knows"] and cls is not None and kind not in ("decorated-subclass", "decorated-base"):
             if kind == "decorated":
                 caller.session.define(cls)
             else:
@@ -202,10 +235,10 @@ def check_flow(c):
         if c["tb"]:
             full_kwargs["traceback"] = tb
         registered_on_caller = c["caller_knows"] and cls is not None
-        constructible = registered_on_caller and kind in ("decorated", "defined") or (registered_on_caller and kind == "nokwargs" and not c["tb"]) or \
+        constructible = registered_on_caller and kind in ("decorated", "defined", "subclass-defined", "decorated-subclass", "decorated-base") or (registered_on_caller and kind == "nokwargs" and not c["tb"]) or \
             (registered_on_caller and kind == "onearg" and not c["tb"] and len(args) == 1)
         if constructible:
-            if not isinstance(got, cls):
+            if not isinstance(got, cls) or (kind == "decorated-base" and type(got) is not cls):
                 raise Violation("C18|registered-class-not-used|" + kind, "caller got %r, expected an instance of %s" % (got, cls.__name__), c)
             if norm(list(got.args)) != norm(args) or norm(getattr(got, "kwargs", {})) != full_kwargs:
                 raise Violation("C18|exception-payload-differs|" + kind, "got args=%r kwargs=%r expected %r %r" % (got.args, getattr(got, "kwargs", None), args, full_kwargs), c)
